@@ -200,6 +200,22 @@ def _dict_sets(fn: ast.AST) -> Set[str]:
     return {k for k, c in inits.items() if c == 1 and k not in bad}
 
 
+def _exits_loop(body: Sequence[ast.stmt]) -> bool:
+    """break / continue that belong to this loop (not to a nested one)."""
+    todo = list(body)
+    while todo:
+        n = todo.pop()
+        if isinstance(n, (ast.Break, ast.Continue)):
+            return True
+        if isinstance(n, (ast.For, ast.AsyncFor, ast.While)):
+            todo += list(n.orelse)
+            continue
+        if isinstance(n, (ast.FunctionDef, ast.AsyncFunctionDef, ast.ClassDef, ast.Lambda)):
+            continue
+        todo += list(ast.iter_child_nodes(n))
+    return False
+
+
 _TAKERS = {"pop", "popitem", "popleft", "heappop", "get_nowait"}
 _MUTATORS = {"append", "add", "extend", "update", "pop", "remove", "clear", "insert", "setdefault",
              "discard", "popitem", "sort", "reverse", "<setitem>", "<setattr>", "<aug>", "set", "cancel"}
@@ -277,7 +293,10 @@ class Walker:
             return T.var(nm)
         if nm in ("True", "False", "None"):
             return T.const({"True": True, "False": False, "None": None}[nm])
-        return T.glob(self.prog.resolve_name(self.mod, nm))
+        q = self.prog.resolve_name(self.mod, nm)
+        if q in T.CONST_VALUES:
+            return T.CONST_VALUES[q]
+        return T.glob(q)
 
     def expr(self, n: Optional[ast.AST]) -> Term:
         if n is None:
@@ -304,7 +323,7 @@ class Walker:
                 if tgt is not None and (tgt in self.prog.modules or "." not in tgt or tgt.split(".")[0] != self.prog.package):
                     full = self.prog.resolve_name(self.mod, d)
                     if self._is_module_like(tgt):
-                        return T.glob(full)
+                        return T.CONST_VALUES.get(full, T.glob(full))
         return ("attr", self.expr(n.value), n.attr)
 
     def _is_module_like(self, dotted_target: str) -> bool:
@@ -837,6 +856,15 @@ class Walker:
 
     def s_For(self, st: ast.For):
         it = self.expr(st.iter)
+        sv = T.strip(it)
+        if (isinstance(st, ast.For) and not st.orelse and sv[0] == "tuple" and len(sv) == 2 and 1 <= len(sv[1]) <= 8
+                and not any(T.is_term(x) and x[0] == "star" for x in sv[1]) and not _exits_loop(st.body)):
+            # a loop over a display of known length: the body, once per element
+            for x in sv[1]:
+                self.assign_target(st.target, x, st)
+                if self.block(st.body):
+                    return True
+            return False
         self.emit("test", ("iter", it), st.iter)
         assigned = self._loop_prologue(st.body, st.orelse)
         saved_g, saved_i = self.guards, self.iters
@@ -1013,8 +1041,8 @@ def _set_tables(prog: Program) -> None:
                 if r:
                     touched.add(r)
         for nm, v in m.globals_assigned.items():
-            if nm in touched or counts.get(nm, 0) != 1:
-                continue
+            if nm in touched or counts.get(nm, 0) != 1 or True:
+                continue        # (superseded by the named literals below)
             if isinstance(v, ast.Dict) and v.keys and all(isinstance(k, ast.Constant) for k in v.keys):
                 pairs = [(k.value, x) for k, x in zip(v.keys, v.values)]      # type: ignore[union-attr]
             elif isinstance(v, (ast.Tuple, ast.List)) and v.elts:
@@ -1035,7 +1063,128 @@ def _set_tables(prog: Program) -> None:
             if tab:
                 tabs[f"{m.name}.{nm}"] = tab
     T.CONST_TABLES = tabs
+    # module-level constants introduced after the pinned tree (named literals): read as their value
+    known_g = known_globals()
+    vals: Dict[str, Term] = {}
+    for m in prog.modules.values():
+        touched, counts = set(), {}
+        for n in ast.walk(m.tree):
+            if isinstance(n, ast.Name) and isinstance(n.ctx, (ast.Store, ast.Del)):
+                counts[n.id] = counts.get(n.id, 0) + 1
+            if isinstance(n, (ast.Subscript, ast.Attribute)) and isinstance(n.ctx, (ast.Store, ast.Del)):
+                r = _root_name(n)
+                if r:
+                    touched.add(r)
+            if isinstance(n, ast.Call) and isinstance(n.func, ast.Attribute) and n.func.attr in _MUTATORS:
+                r = _root_name(n.func.value)
+                if r:
+                    touched.add(r)
+            if isinstance(n, ast.Global):
+                touched.update(n.names)
+        for nm, v in m.globals_assigned.items():
+            q = f"{m.name}.{nm}"
+            if q in known_g or nm in touched or counts.get(nm, 0) != 1 or nm.startswith("__"):
+                continue
+            lt = _literal_term(prog, m, v, stored_attrs, 0, vals)
+            if lt is not None:
+                vals[q] = lt
+    T.CONST_VALUES = vals
+    # module-private sentinels: `X = object()`, loaded only by `return X` and identity comparisons in its own module
+    sent: Dict[str, frozenset] = {}
+    for m in prog.modules.values():
+        cands = {nm for nm, v in m.globals_assigned.items() if isinstance(v, ast.Call) and isinstance(v.func, ast.Name) and v.func.id == "object" and not v.args and not v.keywords}
+        if not cands:
+            continue
+        for nm in list(cands):
+            for m2 in prog.modules.values():
+                if m2 is not m and (nm in m2.imports or any(isinstance(n, ast.Attribute) and n.attr == nm for n in ast.walk(m2.tree))):
+                    cands.discard(nm)
+        parents: Dict[int, ast.AST] = {}
+        for n in ast.walk(m.tree):
+            for ch in ast.iter_child_nodes(n):
+                parents[id(ch)] = n
+        returners: Dict[str, set] = {nm: set() for nm in cands}
+        for n in ast.walk(m.tree):
+            if isinstance(n, ast.Name) and n.id in cands:
+                par = parents.get(id(n))
+                if isinstance(n.ctx, ast.Store):
+                    if not (isinstance(par, (ast.Assign, ast.AnnAssign)) and parents.get(id(par)) is m.tree):
+                        cands.discard(n.id)
+                elif isinstance(par, ast.Return):
+                    f = par
+                    while f is not None and not isinstance(f, (ast.FunctionDef, ast.AsyncFunctionDef)):
+                        f = parents.get(id(f))
+                    fi2 = prog.func_of_node.get(id(f)) if f is not None else None
+                    if fi2 is None:
+                        cands.discard(n.id)
+                    else:
+                        returners[n.id].add(fi2.qualname)
+                elif isinstance(par, ast.Compare) and all(isinstance(o, (ast.Is, ast.IsNot)) for o in par.ops):
+                    pass
+                else:
+                    cands.discard(n.id)
+        for nm in cands:
+            sent[f"{m.name}.{nm}"] = frozenset(returners[nm])
+    T.SENTINELS = sent
     prog._tables_set = True  # type: ignore[attr-defined]
+
+
+_KNOWN_G: Optional[Set[str]] = None
+
+
+def known_globals() -> Set[str]:
+    global _KNOWN_G
+    if _KNOWN_G is None:
+        import os
+        path = os.path.join(os.path.dirname(os.path.abspath(__file__)), "known_globals.txt")
+        _KNOWN_G = {l.strip() for l in open(path) if l.strip() and not l.startswith("#")}
+    return _KNOWN_G
+
+
+def _literal_term(prog: Program, m: Any, v: ast.AST, stored_attrs: Set[str], depth: int = 0, vals: Optional[Dict[str, Term]] = None) -> Optional[Term]:
+    """The term of a literal: constants, displays of literals (tuples, lists, dicts with constant keys), value-class
+    constructors and empty collections, names of functions / classes that nothing re-assigns, other named literals."""
+    if depth > 5:
+        return None
+    rec = lambda x: _literal_term(prog, m, x, stored_attrs, depth + 1, vals)  # noqa: E731
+    if isinstance(v, ast.Constant):
+        return T.const(v.value)
+    if isinstance(v, ast.UnaryOp) and isinstance(v.op, ast.USub) and isinstance(v.operand, ast.Constant) and isinstance(v.operand.value, (int, float)):
+        return T.const(-v.operand.value)
+    if isinstance(v, (ast.Tuple, ast.List)):
+        parts = [rec(x) for x in v.elts]
+        if any(x is None for x in parts):
+            return None
+        if isinstance(v, ast.Tuple):
+            return ("tuple", tuple(parts))
+        return ("bag", tuple(("elem", x, (), ()) for x in parts), "list")
+    if isinstance(v, ast.Dict):
+        if not v.keys or not all(isinstance(k, ast.Constant) for k in v.keys):
+            return None
+        vs = [rec(x) for x in v.values]
+        if any(x is None for x in vs):
+            return None
+        return ("dict", tuple((T.const(k.value), x) for k, x in zip(v.keys, vs)))      # type: ignore[union-attr]
+    if isinstance(v, ast.Call):
+        d = dotted(v.func)
+        if d is None:
+            return None
+        q = prog.resolve_name(m, d)
+        if q in prog.records() or (q in ("frozenset", "set", "dict", "list", "tuple") and not v.args and not v.keywords):
+            args = [rec(x) for x in v.args]
+            kws = [(k.arg, rec(k.value)) for k in v.keywords]
+            if any(x is None for x in args) or any(k is None or x is None for k, x in kws):
+                return None
+            return ("call", T.glob(q), tuple(args), tuple(sorted(kws)))
+        return None
+    d2 = dotted(v)
+    if d2 is not None:
+        q = prog.resolve_name(m, d2)
+        if vals is not None and q in vals:
+            return vals[q]
+        if (not q.startswith(prog.package + ".") and "." in q) or ((q in prog.functions or q in prog.classes) and q.rsplit(".", 1)[-1] not in stored_attrs):
+            return T.glob(q)
+    return None
 
 
 def summarise(prog: Program, fi: FuncInfo) -> Summary:
